@@ -94,6 +94,17 @@ def replace_callables_and_configs_with_symbols(
     """Split-out helper method to handle Partial() nodes."""
     arguments = config_lib.ordered_arguments(value)
     all_tags = value.__argument_tags__
+    for arg, arg_tags in all_tags.items():
+      if arg_tags and arg not in arguments:
+        # Same as for fdl.Config below: such a field cannot be expressed, and
+        # must not be dropped silently.
+        raise ValueError(
+            f"Tagged field '{arg}' of {value!r} is not found in its"
+            f" arguments: {arguments}. This is likely because the"
+            " tagged field doesn't yet have a value. Consider assigning a"
+            " value to the field first or removing field tags from your"
+            " config, for example using `fdl.clear_tags`."
+        )
 
     # Arguments which were config_lib.ArgFactory arguments; these need to be
     # turned into regular calls.
